@@ -50,18 +50,29 @@ type VerifMessage struct {
 }
 
 type VerifOutcome struct {
+	Panic          any // non-nil: FuzzDyukov panicked with this value (state below is the state at that moment)
 	Sent, Received map[VerifMessage]int
-	AcquiredMemory []int64
+	AcquiredMemory []int64 // per transport
 	MemoryLimit    []int64
+	HeldByConns    []int64 // per transport: sum over its connections of (messagesTotalOffset - messagesBeginOffset)
 	Allocated      int
 	Deallocated    int
 }
 
-// VerifRunSimulator runs FuzzDyukov and returns what the simulator context held when the network had settled.
-func VerifRunSimulator(cmds []byte, restarts bool) *VerifOutcome {
-	var out *VerifOutcome
-	VerifObserveHook = func(f *FuzzTransportContext) {
-		o := &VerifOutcome{Sent: map[VerifMessage]int{}, Received: map[VerifMessage]int{}, Allocated: f.allocatedMessages, Deallocated: f.deallocatedMessages}
+// VerifRunSimulator runs FuzzDyukov and returns the simulator state when it returned or panicked.
+func VerifRunSimulator(cmds []byte, restarts bool) (out *VerifOutcome) {
+	var fctx *FuzzTransportContext
+	VerifObserveHook = func(f *FuzzTransportContext) { fctx = f }
+	snapshot := func(p any) {
+		VerifObserveHook = nil
+		if fctx == nil {
+			if p != nil {
+				panic(p)
+			}
+			return
+		}
+		f := fctx
+		o := &VerifOutcome{Panic: p, Sent: map[VerifMessage]int{}, Received: map[VerifMessage]int{}, Allocated: f.allocatedMessages, Deallocated: f.deallocatedMessages}
 		for m, n := range f.sentMessages {
 			o.Sent[VerifMessage{m.src, m.dst, m.message}] = n
 		}
@@ -69,12 +80,23 @@ func VerifRunSimulator(cmds []byte, restarts bool) *VerifOutcome {
 			o.Received[VerifMessage{m.src, m.dst, m.message}] = n
 		}
 		for _, t := range f.ts {
+			if t == nil {
+				o.AcquiredMemory = append(o.AcquiredMemory, 0)
+				o.MemoryLimit = append(o.MemoryLimit, 0)
+				o.HeldByConns = append(o.HeldByConns, 0)
+				continue
+			}
 			o.AcquiredMemory = append(o.AcquiredMemory, t.acquiredMemory)
 			o.MemoryLimit = append(o.MemoryLimit, t.incomingMessagesMemoryLimit)
+			var held int64
+			for _, c := range t.handshakeByPid {
+				held += c.incoming.messagesTotalOffset - c.incoming.messagesBeginOffset
+			}
+			o.HeldByConns = append(o.HeldByConns, held)
 		}
 		out = o
 	}
-	defer func() { VerifObserveHook = nil }()
+	defer func() { snapshot(recover()) }()
 	FuzzDyukov(cmds, restarts)
-	return out
+	return nil
 }
